@@ -1,4 +1,4 @@
-\* the order-independent design: every universe, collisions included
+\* order-independent design; 3 hosts, 6 keys, <=2 points each, collisions included
 CONSTANTS Base = 3  KF_CollisionLastWriter = FALSE  KF_RemoveSizedByArgument = FALSE
   HostMap <- HostMap3  HiMax = 1  LoMax = 2  MaxPts = 2  CollisionFreeOnly = FALSE  Wide = FALSE
 SPECIFICATION Spec
